@@ -508,8 +508,8 @@ func genSeg(r *hx.Rng, wild bool) *Seg {
 			if wild && r.Intn(15) == 0 {
 				single = !single
 			}
-			if wild && r.Intn(25) == 0 {
-				op.Tr = uint32(r.Pick(0, 9, int(cur)))
+			if (wild && r.Intn(25) == 0) || (!wild && fr.Multi && r.Intn(40) == 0) {
+				op.Tr = uint32(r.Pick(0, 9, int(cur))) // unknown track id: must be refused with an error
 			}
 			switch m {
 			case 'f':
@@ -794,8 +794,18 @@ func checkSeg(sg *Seg) *failure {
 			if c == 'p' {
 				return &failure{"Fragment." + opName(sg.Frags[i].Ops[j].K), "panic", fmt.Sprintf("panic in op %d of fragment %d", j, i)}
 			}
-			if c == 'e' {
-				return &failure{"Fragment." + opName(sg.Frags[i].Ops[j].K), "error", fmt.Sprintf("error in op %d of fragment %d", j, i)}
+			op := &sg.Frags[i].Ops[j]
+			known := op.K != "T" && op.K != "M"
+			for _, t := range sg.Frags[i].Tracks {
+				if t == op.Tr {
+					known = true
+				}
+			}
+			if c == 'e' && known {
+				return &failure{"Fragment." + opName(op.K), "error", fmt.Sprintf("error in op %d of fragment %d", j, i)}
+			}
+			if c == 'o' && !known {
+				return &failure{"Fragment.AddSampleToTrack", "wrong-track", fmt.Sprintf("op %d of fragment %d adds to track id %d which the fragment does not have: no error", j, i, op.Tr)}
 			}
 		}
 	}
@@ -1006,6 +1016,37 @@ func genExh(L int, emit func(sg *Seg)) {
 	rec(nil, [3]uint64{0, 1000, 5000})
 }
 
+// probeStaleFsf: first-sample-flags set by hand on a trun that also has per-sample flags must not survive optimisation
+// (fixed defect C05-F1)
+func probeStaleFsf() *failure {
+	f, _ := mp4.CreateFragment(1, 1)
+	var want []mp4.FullSample
+	for i := 0; i < 3; i++ {
+		fs := mp4.FullSample{Sample: mp4.Sample{Flags: 0x1010000, Dur: 10, Size: 2}, DecodeTime: uint64(10 * i), Data: []byte{byte(i), 9}}
+		f.AddFullSample(fs)
+		want = append(want, fs)
+	}
+	f.Moof.Traf.Trun.SetFirstSampleFlags(0x2000000)
+	b, c := encodeFrag(f, true, false)
+	if c != 'o' {
+		return &failure{"Fragment.Encode", "error", "cannot encode"}
+	}
+	fl, c := decodeAll(b, false)
+	if c != 'o' {
+		return &failure{"DecodeFile", "error", "cannot decode"}
+	}
+	got, cg := getFull(fl.Segments[0].Fragments[0], nil)
+	if cg != 'o' || len(got) != len(want) {
+		return &failure{"roundtrip", "sample-count", "stale first-sample-flags probe"}
+	}
+	for k := range want {
+		if d := sameFull(want[k], got[k]); d != "" {
+			return &failure{"TrafBox.OptimizeTfhdTrun", d, fmt.Sprintf("SetFirstSampleFlags(0x2000000) on a trun with equal per-sample flags 0x1010000, then OptimizeTrun: sample %d read back with %s changed", k, d)}
+		}
+	}
+	return nil
+}
+
 func cmdSearch(seed uint64, n int, exh int) {
 	r := hx.NewRng(mixSeed(seed, 0x5ea7c4))
 	evals := 0
@@ -1023,6 +1064,10 @@ func cmdSearch(seed uint64, n int, exh int) {
 		}
 		w, _ := json.Marshal(small)
 		fmt.Fprintf(out, "FAIL\t%s\t%s\t%s\t%s\n", f2.site, f2.class, string(w), f2.desc)
+	}
+	evals++
+	if f := probeStaleFsf(); f != nil {
+		fmt.Fprintf(out, "FAIL\t%s\t%s\t%s\t%s\n", f.site, f.class, "probe:stalefsf (harness/c05/main.go probeStaleFsf)", f.desc)
 	}
 	evals++
 	if f := probeReencode(); f != nil {
@@ -1072,6 +1117,14 @@ func cmdSearch(seed uint64, n int, exh int) {
 }
 
 func cmdReplay(w string) {
+	if strings.HasPrefix(w, "probe:stalefsf") {
+		if f := probeStaleFsf(); f != nil {
+			fmt.Fprintf(out, "FAIL\t%s\t%s\t%s\t%s\n", f.site, f.class, w, f.desc)
+		} else {
+			fmt.Fprintln(out, "HOLDS")
+		}
+		return
+	}
 	if strings.HasPrefix(w, "probe:reencode") {
 		if f := probeReencode(); f != nil {
 			fmt.Fprintf(out, "FAIL\t%s\t%s\t%s\t%s\n", f.site, f.class, w, f.desc)
